@@ -207,6 +207,15 @@ Proof.
   - rewrite (augment_gen_copied _ _ _ _ _ H (or_intror Ht)), Hov. reflexivity.
 Qed.
 
+(* BEGIN-TODAY: the code as pinned (copied_plain = []).  AFTER A FIX of option.py that copies
+   discount_rate: set copied_plain := ["discount_rate"] in model/Option.v, delete this block
+   (the witness no longer computes) and state instead
+
+     Theorem augment_preserves : preserves augment.
+     Proof. exact (augment_gen_preserves copied_plain (or_introl eq_refl)). Qed.
+
+   (checked in a scratch copy of this development); augment_preserves_partial, option_stops
+   and Part C are unaffected. *)
 (* ... and is REFUTED for augment as option.py writes it: an instance-level
    discount_rate (QuickMDP, GridWorld, ... set it in __init__) is lost. *)
 Definition witness_class : pyclass :=
@@ -243,6 +252,8 @@ Proof.
   destruct augment_preserves_discount_refuted_witness as (o & ov & o' & k & Ha & Hk & Hov & _ & _ & Hne).
   exact (Hne (P o ov o' Ha k Hk Hov)).
 Qed.
+
+(* END-TODAY *)
 
 (* What does hold today: every functional component and the lists are preserved; any
    other attribute (discount_rate in particular) is preserved exactly when it is a plain
@@ -834,3 +845,340 @@ Proof.
 Qed.
 
 End Marginal.
+
+(* --- the outcome key equality is an equivalence ------------------------- *)
+Lemma Qeq_bool_sym : forall x y, Qeq_bool x y = Qeq_bool y x.
+Proof.
+  intros x y. destruct (Qeq_bool x y) eqn:E1; destruct (Qeq_bool y x) eqn:E2; try reflexivity.
+  - apply Qeq_bool_iff in E1. apply Qeq_bool_neq in E2. exfalso. apply E2. symmetry. exact E1.
+  - apply Qeq_bool_iff in E2. apply Qeq_bool_neq in E1. exfalso. apply E1. symmetry. exact E2.
+Qed.
+
+Lemma okey_eqb_refl : forall x, okey_eqb x x = true.
+Proof.
+  intros [[a b] c]. unfold okey_eqb. simpl. rewrite !Nat.eqb_refl. simpl.
+  apply Qeq_bool_iff. reflexivity.
+Qed.
+Lemma okey_eqb_sym : forall x y, okey_eqb x y = okey_eqb y x.
+Proof.
+  intros [[a b] c] [[a' b'] c']. unfold okey_eqb. simpl.
+  rewrite (Nat.eqb_sym a a'), (Nat.eqb_sym b b'), (Qeq_bool_sym c c'). reflexivity.
+Qed.
+Lemma okey_eqb_true : forall x y, okey_eqb x y = true <->
+  fst (fst x) = fst (fst y) /\ snd (fst x) = snd (fst y) /\ (snd x == snd y)%Q.
+Proof.
+  intros [[a b] c] [[a' b'] c']. unfold okey_eqb. simpl.
+  rewrite !andb_true_iff, !Nat.eqb_eq, Qeq_bool_iff. tauto.
+Qed.
+Lemma okey_eqb_trans : forall x y z, okey_eqb x y = true -> okey_eqb y z = true -> okey_eqb x z = true.
+Proof.
+  intros x y z H1 H2. apply okey_eqb_true in H1. apply okey_eqb_true in H2. apply okey_eqb_true.
+  destruct H1 as (A1 & B1 & C1), H2 as (A2 & B2 & C2).
+  split; [congruence|]. split; [congruence|]. rewrite C1. exact C2.
+Qed.
+
+Lemma nt_eqb_refl : forall x, nt_eqb x x = true.
+Proof. intros [a b]. unfold nt_eqb. simpl. rewrite !Nat.eqb_refl. reflexivity. Qed.
+Lemma nt_eqb_sym : forall x y, nt_eqb x y = nt_eqb y x.
+Proof. intros [a b] [a' b']. unfold nt_eqb. simpl. rewrite (Nat.eqb_sym a a'), (Nat.eqb_sym b b'). reflexivity. Qed.
+Lemma nt_eqb_trans : forall x y z, nt_eqb x y = true -> nt_eqb y z = true -> nt_eqb x z = true.
+Proof.
+  intros [a b] [a' b'] [a'' b'']. unfold nt_eqb. simpl. rewrite !andb_true_iff, !Nat.eqb_eq.
+  intros [-> ->] [-> ->]. split; reflexivity.
+Qed.
+Lemma nat_eqb_trans : forall x y z, Nat.eqb x y = true -> Nat.eqb y z = true -> Nat.eqb x z = true.
+Proof. intros x y z. rewrite !Nat.eqb_eq. congruence. Qed.
+
+(* --- what one simulation contributes ------------------------------------- *)
+(* sum_t gamma^t r_t, discounting from t = 0 *)
+Fixpoint disc_sum (gamma : Q) (rs : list Q) : Q :=
+  match rs with [] => 0%Q | r :: rest => (r + gamma * disc_sum gamma rest)%Q end.
+
+Lemma last_cons : forall (A : Type) (a : A) l d, last (a :: l) d = last l a.
+Proof.
+  intros A a l. revert a. induction l as [|b r IH]; intros a d; [reflexivity|].
+  change (last (a :: b :: r) d) with (last (b :: r) d). rewrite !IH. reflexivity.
+Qed.
+
+Lemma outcome_loop_spec : forall gamma sts ns t disc cum,
+  let res := outcome_loop gamma (map (fun st => (Some (s_next st), s_reward st)) sts ++ [(None, 0%Q)]) ns t disc cum in
+  fst (fst res) = last (map s_next sts) ns /\
+  snd (fst res) = t + List.length sts /\
+  (snd res == cum + disc * disc_sum gamma (map s_reward sts))%Q.
+Proof.
+  intros gamma sts. induction sts as [|st r IH]; intros ns t disc cum.
+  - cbn. split; [reflexivity|]. split; [lia|]. ring.
+  - cbn [map app outcome_loop List.length disc_sum].
+    specialize (IH (s_next st) (S t) (disc * gamma)%Q (cum + s_reward st * disc)%Q). cbv zeta in IH.
+    destruct IH as (H1 & H2 & H3). cbv zeta.
+    split; [rewrite H1, last_cons; reflexivity|]. split; [rewrite H2; lia|].
+    rewrite H3. ring.
+Qed.
+
+(* For ANY recorded simulation: end state = last successor (or the start if none),
+   steps = number of full steps, reward = sum_t gamma^t r_t. *)
+Theorem sim_outcome_spec : forall gamma r,
+  fst (fst (sim_outcome gamma r)) = last (map s_next (steps r)) (sim_first_state r) /\
+  snd (fst (sim_outcome gamma r)) = List.length (steps r) /\
+  (snd (sim_outcome gamma r) == disc_sum gamma (map s_reward (steps r)))%Q.
+Proof.
+  intros gamma r. unfold sim_outcome, sim_rows.
+  destruct (outcome_loop_spec gamma (steps r) (sim_first_state r) 0 1%Q 0%Q) as (H1 & H2 & H3).
+  cbv zeta in *. split; [exact H1|]. split; [rewrite H2; reflexivity|]. rewrite H3. ring.
+Qed.
+
+Lemma policy_run_on_last : forall absb rew ch ms t s,
+  last (map s_next (steps (policy_run_on absb rew ch ms t s))) s = final (policy_run_on absb rew ch ms t s) /\
+  sim_first_state (policy_run_on absb rew ch ms t s) = s.
+Proof.
+  intros absb rew ch ms. induction ms as [|m IH]; intros t s; cbn [policy_run_on].
+  - split; reflexivity.
+  - destruct (absb s); [split; reflexivity|].
+    destruct (IH (S t) (snd (ch t))) as (H1 & _).
+    cbn [steps final map s_next]. split; [rewrite last_cons; exact H1|reflexivity].
+Qed.
+
+Lemma option_run_on_ret_inv : forall o term ms ch s0 r,
+  option_run_on o term ms ch s0 = Ret r ->
+  exists ab rw, r = policy_run_on ab rw ch ms 0 s0.
+Proof.
+  intros o term ms ch s0 r H. unfold option_run_on in H.
+  destruct (augment o [("is_absorbing", VAbs term)]) as [sub|]; [|discriminate].
+  destruct (getattr sub "is_absorbing") as [[| | | | | |ab]|]; try discriminate.
+  destruct (getattr sub "reward") as [[| | | | |rw|]|]; try discriminate.
+  destruct (Nat.leb ms (sim_len (policy_run_on ab rw ch ms 0 s0))); [discriminate|].
+  inversion H. exists ab, rw. reflexivity.
+Qed.
+
+(* the triple an option's own simulation contributes:
+   (state where it ended, number of primitive steps, sum_t gamma^t r_t) *)
+Theorem sim_outcome_of_run : forall gamma o term ms ch s0 r,
+  option_run_on o term ms ch s0 = Ret r ->
+  fst (fst (sim_outcome gamma r)) = final r /\
+  snd (fst (sim_outcome gamma r)) = List.length (steps r) /\
+  (snd (sim_outcome gamma r) == disc_sum gamma (map s_reward (steps r)))%Q.
+Proof.
+  intros gamma o term ms ch s0 r H.
+  destruct (option_run_on_ret_inv _ _ _ _ _ _ H) as (ab & rw & ->).
+  destruct (sim_outcome_spec gamma (policy_run_on ab rw ch ms 0 s0)) as (H1 & H2 & H3).
+  destruct (policy_run_on_last ab rw ch ms 0 s0) as (L1 & L2).
+  split; [rewrite H1, L2; exact L1|]. split; [exact H2|exact H3].
+Qed.
+
+(* --- run_simulations ------------------------------------------------------ *)
+Lemma run_simulations_ret : forall o op s n streams sims,
+  run_simulations o op s n streams = Ret sims ->
+  List.length sims = n /\
+  forall i, i < n ->
+    option_run_on o (op_terminal op) (op_max_steps op) (nth i streams default_stream) s
+      = Ret (nth i sims (mkSim [] 0)).
+Proof.
+  intros o op s n. induction n as [|m IH]; intros streams sims H; simpl in H.
+  - inversion H. split; [reflexivity|]. intros i Hi. lia.
+  - destruct (option_run_on o (op_terminal op) (op_max_steps op) (hd default_stream streams) s) as [r| |] eqn:Hr; try discriminate.
+    destruct (run_simulations o op s m (tl streams)) as [rs| |] eqn:Hrs; try discriminate.
+    inversion H; subst sims; clear H.
+    destruct (IH _ _ Hrs) as (Hlen & Hnth). split; [simpl; rewrite Hlen; reflexivity|].
+    intros [|i] Hi.
+    + simpl. destruct streams; exact Hr.
+    + simpl nth at 2. replace (nth (S i) streams default_stream) with (nth i (tl streams) default_stream).
+      * apply Hnth. lia.
+      * destruct streams as [|x xs]; [destruct i; reflexivity|reflexivity].
+Qed.
+
+Lemma run_simulations_maxsteps : forall o op s n streams,
+  run_simulations o op s n streams = RaiseMaxSteps ->
+  exists i, i < n /\
+    option_run_on o (op_terminal op) (op_max_steps op) (nth i streams default_stream) s = RaiseMaxSteps /\
+    forall j, j < i -> exists r,
+      option_run_on o (op_terminal op) (op_max_steps op) (nth j streams default_stream) s = Ret r.
+Proof.
+  intros o op s n. induction n as [|m IH]; intros streams H; simpl in H; [discriminate|].
+  destruct (option_run_on o (op_terminal op) (op_max_steps op) (hd default_stream streams) s) as [r| |] eqn:Hr; try discriminate.
+  - destruct (run_simulations o op s m (tl streams)) as [rs| |] eqn:Hrs; try discriminate.
+    destruct (IH _ Hrs) as (i & Hi & Hraise & Hbefore).
+    assert (Hshift : forall j, nth (S j) streams default_stream = nth j (tl streams) default_stream).
+    { intro j. destruct streams as [|x xs]; [destruct j; reflexivity|reflexivity]. }
+    exists (S i). split; [lia|]. split; [rewrite Hshift; exact Hraise|].
+    intros [|j] Hj.
+    + exists r. destruct streams; exact Hr.
+    + rewrite Hshift. apply Hbefore. lia.
+  - exists 0. split; [lia|]. split; [destruct streams; exact Hr|]. intros j Hj. lia.
+Qed.
+
+(* --- THE THEOREM for options ------------------------------------------------ *)
+Lemma qnat_nonzero : forall n, 0 < n -> ~ (qnat n == 0)%Q.
+Proof. intros n Hn E. unfold qnat, Qeq in E. simpl in E. lia. Qed.
+
+Theorem smdp_outcome_mass : forall gamma n sims P,
+  respects okey_eqb P ->
+  (mass P (smdp_outcome gamma n sims) == qnat (countb (fun r => P (sim_outcome gamma r)) sims) / qnat n)%Q.
+Proof.
+  intros gamma n sims P HP. unfold smdp_outcome.
+  rewrite mass_counts, (csum_count_all okey_eqb) by exact HP.
+  rewrite countb_map. reflexivity.
+Qed.
+
+Theorem smdp_outcome_normalised : forall gamma sims,
+  0 < List.length sims ->
+  (mass (fun _ => true) (smdp_outcome gamma (List.length sims) sims) == 1)%Q.
+Proof.
+  intros gamma sims Hn. rewrite smdp_outcome_mass by (intros x y _; reflexivity).
+  rewrite countb_true. unfold Qdiv. apply Qmult_inv_r. apply qnat_nonzero. exact Hn.
+Qed.
+
+Theorem smdp_outcome_distinct : forall gamma n sims,
+  keys_distinct okey_eqb (map fst (smdp_outcome gamma n sims)) /\
+  Forall (fun kp => (0 < snd kp)%Q) (smdp_outcome gamma n sims) \/ n = 0.
+Proof.
+  intros gamma n sims. destruct n as [|n]; [right; reflexivity|left]. split.
+  - unfold smdp_outcome. rewrite map_map. simpl.
+    apply (count_all_distinct okey_eqb okey_eqb_sym).
+  - unfold smdp_outcome. apply Forall_forall. intros [k p] Hin.
+    apply in_map_iff in Hin. destruct Hin as ([k' c] & E & Hin). inversion E; subst; clear E. simpl.
+    pose proof (count_all_pos okey_eqb (map (sim_outcome gamma) sims)) as Hpos.
+    rewrite Forall_forall in Hpos. specialize (Hpos _ Hin). simpl in Hpos.
+    unfold Qdiv. apply Qmult_lt_0_compat.
+    + unfold qnat, Qlt. simpl. lia.
+    + apply Qinv_lt_0_compat. unfold qnat, Qlt. simpl. lia.
+Qed.
+
+Theorem smdp_expected_reward_mean : forall gamma n sims,
+  (smdp_expected_reward (smdp_outcome gamma n sims)
+   == lsum (fun k => snd k) (map (sim_outcome gamma) sims) / qnat n)%Q.
+Proof.
+  intros gamma n sims. unfold smdp_expected_reward, expectation.
+  assert (G : forall (d : dist okey) acc,
+            (fold_left (fun tot ep => tot + snd (fst ep) * snd ep) d acc == acc + wsum (fun k => snd k) d)%Q).
+  { induction d as [|[k p] r IH]; intro acc; simpl; [ring|]. rewrite IH. ring. }
+  rewrite G. unfold smdp_outcome. rewrite wsum_counts. unfold count_all.
+  rewrite (cw_fold okey_eqb).
+  - cbn [cw]. rewrite !Qplus_0_l. reflexivity.
+  - intros x y H. apply okey_eqb_true in H. tauto.
+Qed.
+
+Theorem smdp_outcome_empirical : forall m s op streams d,
+  0 < sm_n m ->
+  smdp_nstr m s (Opt op) streams = Ret d ->
+  exists gamma sims,
+    getattr (sm_mdp m) "discount_rate" = Some (VNum gamma) /\
+    List.length sims = sm_n m /\
+    (* its own simulations: simulation i is Option.run_on driven by stream i *)
+    (forall i, i < sm_n m ->
+       option_run_on (sm_mdp m) (op_terminal op) (op_max_steps op) (nth i streams default_stream) s
+         = Ret (nth i sims (mkSim [] 0))) /\
+    (* each contributes (end state, primitive steps, sum_t gamma^t r_t) *)
+    (forall r, In r sims ->
+       fst (fst (sim_outcome gamma r)) = final r /\
+       snd (fst (sim_outcome gamma r)) = List.length (steps r) /\
+       (snd (sim_outcome gamma r) == disc_sum gamma (map s_reward (steps r)))%Q) /\
+    (* the distribution is the empirical measure of those triples: for EVERY event *)
+    (forall P, respects okey_eqb P ->
+       (mass P d == qnat (countb (fun r => P (sim_outcome gamma r)) sims) / qnat (sm_n m))%Q) /\
+    (* it is a dict (distinct keys) and sums to 1 *)
+    keys_distinct okey_eqb (map fst d) /\
+    (mass (fun _ => true) d == 1)%Q /\
+    (* the three derived views are push-forwards of it *)
+    (forall P, respects nt_eqb P ->
+       (mass P (smdp_marginal_nt d) == mass (fun k => P (fst k)) d)%Q) /\
+    (forall P : nat -> bool,
+       (mass P (smdp_marginal_n d) == mass (fun k => P (fst (fst k))) d)%Q) /\
+    (smdp_expected_reward d == lsum (fun k => snd k) (map (sim_outcome gamma) sims) / qnat (sm_n m))%Q.
+Proof.
+  intros m s op streams d Hn H. unfold smdp_nstr in H.
+  destruct (run_simulations (sm_mdp m) op s (sm_n m) streams) as [sims| |] eqn:Hsims; try discriminate.
+  destruct (getattr (sm_mdp m) "discount_rate") as [[gamma| | | | | |]|] eqn:Hg; try discriminate.
+  inversion H; subst d; clear H.
+  destruct (run_simulations_ret _ _ _ _ _ _ Hsims) as (Hlen & Hnth).
+  exists gamma, sims.
+  split; [reflexivity|]. split; [exact Hlen|]. split; [exact Hnth|].
+  split.
+  { intros r Hin. destruct (In_nth _ _ (mkSim [] 0) Hin) as (i & Hi & E).
+    rewrite Hlen in Hi. specialize (Hnth i Hi). rewrite E in Hnth.
+    exact (sim_outcome_of_run gamma _ _ _ _ _ _ Hnth). }
+  split; [intros P HP; apply smdp_outcome_mass; exact HP|].
+  split.
+  { destruct (smdp_outcome_distinct gamma (sm_n m) sims) as [[Hd _]|E]; [exact Hd|lia]. }
+  split.
+  { rewrite <- Hlen. apply smdp_outcome_normalised. lia. }
+  split.
+  { intros P HP. unfold smdp_marginal_nt. apply (mass_marginalize nt_eqb). exact HP. }
+  split.
+  { intros P. unfold smdp_marginal_n. apply (mass_marginalize Nat.eqb).
+    intros x y E. apply Nat.eqb_eq in E. subst. reflexivity. }
+  apply smdp_expected_reward_mean.
+Qed.
+
+(* and when the call raises the step-limit exception, it is because its own first
+   failing simulation reached the limit (all earlier ones returned) *)
+Theorem smdp_outcome_raises : forall m s op streams,
+  smdp_nstr m s (Opt op) streams = RaiseMaxSteps ->
+  exists i, i < sm_n m /\
+    option_run_on (sm_mdp m) (op_terminal op) (op_max_steps op) (nth i streams default_stream) s = RaiseMaxSteps /\
+    forall j, j < i -> exists r,
+      option_run_on (sm_mdp m) (op_terminal op) (op_max_steps op) (nth j streams default_stream) s = Ret r.
+Proof.
+  intros m s op streams H. unfold smdp_nstr in H.
+  destruct (run_simulations (sm_mdp m) op s (sm_n m) streams) as [sims| |] eqn:Hsims; try discriminate.
+  - destruct (getattr (sm_mdp m) "discount_rate") as [[gamma| | | | | |]|]; discriminate.
+  - exact (run_simulations_maxsteps _ _ _ _ _ Hsims).
+Qed.
+
+(* --- primitive actions ---------------------------------------------------- *)
+Theorem smdp_primitive : forall m s a streams acts tr rw,
+  getattr (sm_mdp m) "actions" = Some (VActs acts) ->
+  getattr (sm_mdp m) "next_state_dist" = Some (VTrans tr) ->
+  getattr (sm_mdp m) "reward" = Some (VRew rw) ->
+  (memb a (acts s) = false -> smdp_nstr m s (Prim a) streams = RaiseOther) /\
+  (memb a (acts s) = true ->
+   exists d, smdp_nstr m s (Prim a) streams = Ret d /\
+     (* duration 1, one-step outcomes of the base MDP with the base reward *)
+     (forall k, In k (map fst d) ->
+        exists ns, In ns (map fst (tr s a)) /\ k = (ns, 1, rw s a ns)) /\
+     (* same probabilities as the base transition: as a measure ... *)
+     (forall P, respects okey_eqb P ->
+        (mass P d == mass (fun ns => P (ns, 1%nat, rw s a ns)) (tr s a))%Q) /\
+     keys_distinct okey_eqb (map fst d) /\
+     (* ... and entry by entry when the transition is a dict *)
+     (NoDup (map fst (tr s a)) ->
+        d = map (fun ep => ((fst ep, 1, rw s a (fst ep)), snd ep)) (tr s a))).
+Proof.
+  intros m s a streams acts tr rw Ha Ht Hr. unfold smdp_nstr. rewrite Ha, Ht, Hr. split.
+  - intros ->. reflexivity.
+  - intros ->. eexists. split; [reflexivity|]. split.
+    { intros k Hk. destruct (marginalize_keys okey_eqb _ _ _ Hk) as (ns & Hns & E). exists ns. split; assumption. }
+    split.
+    { intros P HP. apply (mass_marginalize okey_eqb). exact HP. }
+    split.
+    { apply (marginalize_distinct okey_eqb okey_eqb_sym). }
+    intro Hnd.
+    rewrite (marginalize_injective okey_eqb (fun ns => (ns, 1, rw s a ns)) (tr s a)); [reflexivity| |exact Hnd].
+    intros x y _ _ E. apply okey_eqb_true in E. simpl in E. tauto.
+Qed.
+
+(* --- non-vacuity ------------------------------------------------------------ *)
+(* two simulations on the witness MDP (reward 0 replaced by 1 through a class-held MDP):
+   stream A reaches the terminal state 1 after one step, stream B after two *)
+Definition witness_mdp2 : obj :=
+  mkObj [("initial_state_dist", VInit [(O, 1%Q)]); ("actions", VActs (fun _ => [O]));
+         ("next_state_dist", VTrans (fun _ _ => [(O, (1 # 2)%Q); (1%nat, (1 # 2)%Q)]));
+         ("reward", VRew (fun _ _ _ => 1%Q)); ("is_absorbing", VAbs (fun _ => false))]
+        [mkClass "Sub" [("discount_rate", CVal (VNum (1 # 2)%Q))]; witness_class].
+Definition witness_option : poption :=
+  mkOption (fun _ => [(O, 1%Q)]) (fun _ => true) (fun s => Nat.eqb s 1) 5.
+Definition streamA : stream := fun _ => (O, 1%nat).
+Definition streamB : stream := fun t => (O, if Nat.eqb t 0 then O else 1%nat).
+
+Example smdp_outcome_nonvacuous :
+  exists d, smdp_nstr (mkSMDP witness_mdp2 [witness_option] 2 true) 0 (Opt witness_option) [streamA; streamB] = Ret d /\
+            List.length d = 2 /\
+            (mass (okey_eqb (1%nat, 1%nat, 1%Q)) d == 1 # 2)%Q /\
+            (mass (okey_eqb (1%nat, 2%nat, (3 # 2)%Q)) d == 1 # 2)%Q.
+Proof.
+  eexists. split; [vm_compute; reflexivity|]. split; [reflexivity|]. split; vm_compute; reflexivity.
+Qed.
+
+Example smdp_primitive_nonvacuous :
+  exists d, smdp_nstr (mkSMDP witness_mdp2 [] 2 true) 0 (Prim 0) [] = Ret d /\
+            d = [((O, 1%nat, 1%Q), (1 # 2)%Q); ((1%nat, 1%nat, 1%Q), (1 # 2)%Q)].
+Proof. eexists. split; vm_compute; reflexivity. Qed.
